@@ -92,8 +92,9 @@ pub fn base_for(rng: &mut StdRng, ctx: &Ctx, entry: &str) -> Base {
     let retries = rng.gen_range(0 ..= 2u64);
     let mut cfg = json!({"retries": retries, "port": 27015});
     let proto_base = |rng: &mut StdRng, e: &str| -> (bool, Vec<Vec<Vec<u8>>>) {
-        let l = pick_layout(rng, ctx, e);
-        let b = proto::build(rng, l);
+        let cands: Vec<&Value> = ctx.v.layouts.all.iter().filter(|l| l["layout"]["entry"] == e).collect();
+        assert!(!cands.is_empty(), "no layout for entry {e}");
+        let b = proto::build_fitting(rng, &cands);
         (b.tcp, b.batches)
     };
     let conns = if entry == "valve::query" {
